@@ -28,7 +28,6 @@ carries only the facets that are necessary for the failure.
 """
 import contextlib
 import io
-import itertools
 import math
 
 import numpy as np
@@ -191,7 +190,6 @@ class _Problem:
 
 def _build(size, k, cfg):
     """Build the BayesianProblem of a configuration.  Raises whatever the library raises."""
-    import cuqi
     from cuqi.distribution import Gaussian
     from cuqi.model import LinearModel, Model
     from cuqi.problem import BayesianProblem
@@ -429,33 +427,23 @@ def _op_sample(size, k, cfg, prep=None):
         return bad, {}, None
     ref = _LinGauss(G, z, P.b, P.Ce, P.mu, P.Cx)
     n = P.n
-    state = {"requests": 0, "direct": None}
-
     def run(answers, Ns):
         s = Stream(normal=[np.asarray(a, float) for a in answers])
-        buf = io.StringIO()
         with s.installed():
-            with contextlib.redirect_stdout(buf):
+            with _quiet():
                 S = P.BP.sample_posterior(Ns)
-        state["requests"] += len(s.log)
-        state["direct"] = "direct sampling" in buf.getvalue()
-        if [r["shape"] for r in s.log] != [[n]] * Ns or any(r["kind"] != "normal" for r in s.log):
+        # the direct (MAP + Cholesky) route asks for exactly one randn(n) per draw and nothing else
+        if [(r["kind"], r["shape"]) for r in s.log] != [("normal", [n])] * Ns:
             raise _OtherRoute("requests %r" % [(r["kind"], r["shape"]) for r in s.log])
         return np.asarray(S.samples, float)
 
     # first execution decides: refused / other route / direct
     try:
         first = run([np.zeros(n)], 1)
-    except _OtherRoute as e:
-        return "other-route", {}, None
-    except HarnessError as e:          # script exhausted / unowned draw: not the direct route
-        if state["direct"]:
-            raise
-        return "other-route", {}, None
+    except (_OtherRoute, HarnessError) as e:   # other request pattern / script exhausted: another sampler was selected
+        return "other-route:" + type(e).__name__, {}, None
     except Exception as e:
         return "refused:" + type(e).__name__, {}, None
-    if not state["direct"]:
-        return "other-route", {}, None
     kinds = {}
     if first.shape != (n, 1):
         kinds["shape"] = "Samples array has shape %s for Ns=1, n=%d" % (first.shape, n)
@@ -606,7 +594,7 @@ def _eval_lg(cell):
                     obs = {q: v for q, v in obs.items() if q != "transitions"}
                     _report(res, size, k, cfg, "direct", "BayesianProblem.sample_posterior", kinds, obs,
                             lambda c: _op_sample(size, k, c))
-            elif st != "other-route":
+            elif not st.startswith("other-route"):
                 res.refused += 1
     res.nontrivial = judged > 0
     return res
